@@ -22,7 +22,7 @@ import random
 import core
 import gen
 
-PROOF_MODULES = ["UnytProofs.C12"]
+PROOF_MODULES = ["UnytProofs.C12", "UnytProofs.C12Alias", "UnytProofs.C12Macro", "UnytProofs.C12AliasMacro"]
 
 SYM, SYM2 = "foo", "zot"
 
@@ -994,6 +994,10 @@ def run(tier, seed):
     chk.extra["guard"] = {"histories_within_guard": n_safe, "of_which_oracle_failed": n_safe_bad}
     alias_check(chk)
     witness_replays(chk, cfg)
+    # registry OBJECTS over shared containers (Unit.copy() / in_base() hand out shallow copies of the registry)
+    import c12_alias
+
+    c12_alias.run_alias(chk, tier, ptab, known)
     if os.environ.get("C12_DEBUG"):
         for d in chk.disagreements[:40]:
             print("DISAGREE", d[0], d[1][:600])
